@@ -29,6 +29,38 @@ func checkC15(w *World, r *Report) {
 	// operation anywhere in the node writes into a parameter object handed out by an
 	// accessor that returns the stored object (C06 X-6)
 	x6(w, r, "Gv-7", NewExecCtx(w).funcs)
+	// Gv-8: a proposal's recorded powers and tally are changed by punishment too: every
+	// byzantine validator of a block is applied to the proposal as the block has it so
+	// far — the object written back is the overlay's own, not a copy decoded from the
+	// committed tree, which would undo the previous punishment (C01 D-6 stale-copy),
+	// and the proposals punished are those whose voters contain the address (C14 J-1)
+	{
+		x := NewExecCtx(w)
+		tmp := NewReport(r.Prop, r.Tier)
+		d6c(w, tmp, x, consFuncs(x))
+		n := 0
+		for _, o := range tmp.Obs {
+			if strings.HasPrefix(o.Key, "D-6:stale-copy:gov.") {
+				o.Rule = "Gv-8"
+				o.Key = "Gv-8:" + strings.TrimPrefix(o.Key, "D-6:")
+				r.Obs = append(r.Obs, o)
+				n++
+			}
+		}
+		tmp2 := NewReport(r.Prop, r.Tier)
+		j1(w, tmp2)
+		for _, o := range tmp2.Obs {
+			if o.Rule == "J-1" && strings.Contains(o.Key, "GovCtrler") {
+				o.Rule = "Gv-8"
+				o.Key = "Gv-8:" + strings.TrimPrefix(o.Key, "J-1:")
+				r.Obs = append(r.Obs, o)
+				n++
+			}
+		}
+		if n < 4 {
+			r.Undecided("Gv-8", "punishment", "fewer than 4 obligations about the punishment of proposals")
+		}
+	}
 	r.Floor("Gv-1", 9, "proposal guards")
 	r.Floor("Gv-2", 7, "voting guards")
 	r.Floor("Gv-3", 6, "snapshot")
